@@ -52,19 +52,23 @@ def crun (c : Conf) : List Nat → Conf
 (configured) initial state is `s0`. -/
 def cinit (s0 : St) (progs : Nat → List Op) : Conf := ⟨s0, none, fun i => ⟨progs i, .idle, s0⟩⟩
 
-structure CInv (s0 : St) (c : Conf) : Prop where
+/-- `P` is any property of operations that holds of every operation of every program (e.g. "comes from
+`progs`", or "its caller-supplied options are tame"): the serial order consists of such operations only. -/
+structure CInv (P : Op → Prop) (s0 : St) (c : Conf) : Prop where
   excl : ∀ t, (c.thr t).phase ≠ .idle → c.holder = some t
   fresh : ∀ t, (c.thr t).phase = .read → (c.thr t).seen = c.st
-  serial : ∃ ops, c.st = run s0 ops
+  todoP : ∀ t, ∀ op ∈ (c.thr t).todo, P op
+  serial : ∃ ops, c.st = run s0 ops ∧ ∀ op ∈ ops, P op
 
-theorem cinv_init (s0 : St) (progs : Nat → List Op) : CInv s0 (cinit s0 progs) :=
-  ⟨fun t h => absurd rfl h, fun t h => by simp [cinit] at h, ⟨[], rfl⟩⟩
+theorem cinv_init (P : Op → Prop) (s0 : St) (progs : Nat → List Op) (hP : ∀ t, ∀ op ∈ progs t, P op) :
+    CInv P s0 (cinit s0 progs) :=
+  ⟨fun t h => absurd rfl h, fun t h => by simp [cinit] at h, hP, ⟨[], rfl, fun _ h => by cases h⟩⟩
 
 theorem setThr_same (c : Conf) (t : Nat) (x : Thr) : setThr c t x t = x := by simp [setThr]
 
 theorem setThr_other (c : Conf) (t u : Nat) (x : Thr) (h : u ≠ t) : setThr c t x u = c.thr u := by simp [setThr, h]
 
-theorem cstep_inv {s0 : St} {c : Conf} (hi : CInv s0 c) (t : Nat) : CInv s0 (cstep c t) := by
+theorem cstep_inv {P : Op → Prop} {s0 : St} {c : Conf} (hi : CInv P s0 c) (t : Nat) : CInv P s0 (cstep c t) := by
   unfold cstep
   cases htodo : (c.thr t).todo with
   | nil => exact hi
@@ -75,7 +79,12 @@ theorem cstep_inv {s0 : St} {c : Conf} (hi : CInv s0 c) (t : Nat) : CInv s0 (cst
       simp only
       by_cases hh : c.holder = none
       · simp only [hh, if_true]
-        refine ⟨?_, ?_, hi.serial⟩
+        refine ⟨?_, ?_, ?_, hi.serial⟩
+        rotate_left 2
+        · intro u
+          by_cases hut : u = t
+          · subst hut; simp only [setThr_same]; exact hi.todoP u
+          · simp only [setThr_other c t u _ hut]; exact hi.todoP u
         · intro u hu
           by_cases hut : u = t
           · subst hut; rfl
@@ -90,7 +99,12 @@ theorem cstep_inv {s0 : St} {c : Conf} (hi : CInv s0 c) (t : Nat) : CInv s0 (cst
       · simp only [hh, if_false]; exact hi
     | locked =>
       simp only
-      refine ⟨?_, ?_, hi.serial⟩
+      refine ⟨?_, ?_, ?_, hi.serial⟩
+      rotate_left 2
+      · intro u
+        by_cases hut : u = t
+        · subst hut; simp only [setThr_same]; exact hi.todoP u
+        · simp only [setThr_other c t u _ hut]; exact hi.todoP u
       · intro u hu
         by_cases hut : u = t
         · subst hut; exact hi.excl u (by rw [hph]; simp)
@@ -105,7 +119,22 @@ theorem cstep_inv {s0 : St} {c : Conf} (hi : CInv s0 c) (t : Nat) : CInv s0 (cst
       simp only
       have hseen := hi.fresh t hph
       have hhold := hi.excl t (by rw [hph]; simp)
-      refine ⟨?_, ?_, ?_⟩
+      refine ⟨?_, ?_, ?_, ?_⟩
+      rotate_left 2
+      · intro u
+        by_cases hut : u = t
+        · subst hut; simp only [setThr_same]; exact hi.todoP u
+        · simp only [setThr_other c t u _ hut]; exact hi.todoP u
+      · obtain ⟨ops, hops, hPs⟩ := hi.serial
+        refine ⟨ops ++ [op], ?_, ?_⟩
+        · show (step (c.thr t).seen op).1 = run s0 (ops ++ [op])
+          rw [run_append, ← hops, hseen]; rfl
+        · intro o ho
+          rcases List.mem_append.mp ho with ho | ho
+          · exact hPs o ho
+          · simp only [List.mem_singleton] at ho
+            subst ho
+            exact hi.todoP t o (by rw [htodo]; simp)
       · intro u hu
         by_cases hut : u = t
         · subst hut; exact hhold
@@ -119,14 +148,18 @@ theorem cstep_inv {s0 : St} {c : Conf} (hi : CInv s0 c) (t : Nat) : CInv s0 (cst
           have := hi.excl u (by rw [hu]; simp)
           rw [hhold] at this
           exact absurd (Option.some.inj this).symm hut
-      · obtain ⟨ops, hops⟩ := hi.serial
-        refine ⟨ops ++ [op], ?_⟩
-        show (step (c.thr t).seen op).1 = run s0 (ops ++ [op])
-        rw [run_append, ← hops, hseen]; rfl
     | written =>
       simp only
       have hhold := hi.excl t (by rw [hph]; simp)
-      refine ⟨?_, ?_, hi.serial⟩
+      refine ⟨?_, ?_, ?_, hi.serial⟩
+      rotate_left 2
+      · intro u
+        by_cases hut : u = t
+        · subst hut
+          simp only [setThr_same]
+          intro o ho
+          exact hi.todoP u o (by rw [htodo]; simp [ho])
+        · simp only [setThr_other c t u _ hut]; exact hi.todoP u
       · intro u hu
         by_cases hut : u = t
         · subst hut; simp [setThr_same] at hu
@@ -140,7 +173,7 @@ theorem cstep_inv {s0 : St} {c : Conf} (hi : CInv s0 c) (t : Nat) : CInv s0 (cst
         · simp only [setThr_other c t u _ hut] at hu ⊢
           exact hi.fresh u hu
 
-theorem crun_inv {s0 : St} {c : Conf} (hi : CInv s0 c) (sched : List Nat) : CInv s0 (crun c sched) := by
+theorem crun_inv {P : Op → Prop} {s0 : St} {c : Conf} (hi : CInv P s0 c) (sched : List Nat) : CInv P s0 (crun c sched) := by
   induction sched generalizing c with
   | nil => exact hi
   | cons t ts ih => exact ih (cstep_inv hi t)
